@@ -6,6 +6,7 @@ import (
 	"fmt"
 	"html/template"
 	"net/http"
+	"strings"
 	"time"
 
 	"github.com/zitadel/saml/pkg/provider/xml"
@@ -87,7 +88,11 @@ func (r *Response) sendBackResponse(
 			return
 		}
 
-		http.Redirect(w, req, fmt.Sprintf("%s?%s", r.AcsUrl, BuildRedirectQuery(string(respData), r.RelayState, r.SigAlg, r.Signature)), http.StatusFound)
+		separator := "?"
+		if strings.Contains(r.AcsUrl, "?") {
+			separator = "&"
+		}
+		http.Redirect(w, req, r.AcsUrl+separator+BuildRedirectQuery(string(respData), r.RelayState, r.SigAlg, r.Signature), http.StatusFound)
 		return
 	default:
 		r.ErrorFunc(fmt.Errorf("unsupported protocol binding: %s", r.ProtocolBinding))
